@@ -187,6 +187,23 @@ NEEDS = {'env_longtable': ['longtable'], 'env_align': ['amsmath'], 'env_align_st
          'env_multline': ['amsmath'], 'env_split': ['amsmath'], 'env_cases': ['amsmath'], 'env_matrix': ['amsmath'],
          'env_subequations': ['amsmath'], 'env_alignat': ['amsmath'], 'ifthen_open': ['ifthen'], 'listings_pkg': ['listings'], 'ifthen_math': ['ifthen'], 'ifthen_plain': ['ifthen'], 'color': ['color'], 'href': ['hyperref'],
          'coltype_def': ['array'], 'coltype_use': ['array']}
+# optional command-line settings of a job (list/dict valued options are the ones a shared default object would leak)
+EXTRA_ARGV = {
+    'counter': ['--counter', 'section', '5'],
+    'title': ['--title', 'Configured Title'],
+    'secnumdepth': ['--sec-num-depth', '1'],
+    'tocdepth': ['--toc-depth', '1'],
+    'baseurl': ['--base-url', 'http://base.example/'],
+    'pauxdirs': ['--paux-dirs', 'nosuchdir'],
+    'link': ['--link', 'next', 'http://next.example/', 'Next'],
+    'charsub': ['--disable-charsub', "'"],
+    'tocnonfiles': ['--toc-non-files'],
+    'escape': ['--escape-high-chars'],
+    'nomathjax': ['--no-mathjax'],
+    'localtoc': ['--localtoc-level', '1'],
+    'extracss': ['--extra-css', 'extra.css'],
+    'xml': ['--xml'],
+}
 BLOCK_IDS = sorted(b for b in BLOCKS if not b.endswith('_open'))
 OPENERS = sorted(b for b in BLOCKS if b.endswith('_open'))
 CONFLICTS = [('newif', 'newif_probe'), ('coltype_def', 'coltype_use')]
@@ -252,7 +269,8 @@ def generate(seed, tier):
         job = {'op': 'JOB', 'cls': r.choice(CLASSES), 'packages': r.sample(PACKAGES, r.choice([0, 0, 1, 2, 3, 5])),
                'blocks': blocks, 'cut': None, 'renderer': r.choice(['HTML5', 'HTML5', 'XHTML']),
                'split': r.choice([2, 2, 0, -10, 3]), 'theme': r.choice(['default', 'default', 'minimal']),
-               'dt': r.choice([1, 3600, 86400, 31 * 86400, 400 * 86400, -86400])}
+               'dt': r.choice([1, 3600, 86400, 31 * 86400, 400 * 86400, -86400]),
+               'extra': r.sample(sorted(EXTRA_ARGV), r.choice([0, 0, 0, 1, 1, 2]))}
         if not last and r.random() < 0.3:
             job['cut'] = r.randrange(200, 1000)
         if not last and r.random() < 0.25 and not any(b.endswith('_open') for b in blocks):
@@ -405,8 +423,12 @@ def history_job(args, fs):
             f.write(job['src'])
         w0 = len(fs.writes)
         holder.clear()
-        argv = ['--renderer', job['renderer'], '--imager', 'none', '--vector-imager', 'none',
-                '--split-level', str(job['split']), '--theme', job['theme'], name + '.tex']
+        # file name first: list-valued options (nargs='+') would otherwise swallow it
+        argv = [name + '.tex', '--renderer', job['renderer'], '--imager', 'none', '--vector-imager', 'none',
+                '--split-level', str(job['split']), '--theme', job['theme']]
+        for x in job.get('extra', []):
+            if x in EXTRA_ARGV and not (job['renderer'] != 'HTML5' and x in ('nomathjax', 'localtoc', 'extracss')):
+                argv += EXTRA_ARGV[x]
         out = {'name': name, 'ok': True}
         try:
             plasTeX.client.main(argv)
@@ -565,7 +587,8 @@ def _materialise(record):
     for j, op in enumerate([o for o in record['ops'] if o.get('op') == 'JOB'][:5]):
         clock += op.get('dt', 1)
         jobs.append({'name': 'j%d' % j, 'src': job_source(op), 'renderer': op['renderer'], 'split': op['split'],
-                     'theme': op['theme'], 'clock': clock, 'blocks': op['blocks'], 'cut': op.get('cut')})
+                     'theme': op['theme'], 'clock': clock, 'blocks': op['blocks'], 'cut': op.get('cut'),
+                     'extra': op.get('extra', [])})
     return jobs
 
 
@@ -634,7 +657,7 @@ def execute(record):
         refcache = {}
         for j, h in enumerate(hist):
             job = jobs[j]
-            key = core.hexdigest([job['src'], job['renderer'], job['split'], job['theme'], job['clock']])
+            key = core.hexdigest([job['src'], job['renderer'], job['split'], job['theme'], job['clock'], job['extra']])
             if key not in refcache:
                 mode = 'exec' if (sw.get('exec_ref') and j == len(hist) - 1) else 'fork'
                 if mode == 'exec':
@@ -685,7 +708,7 @@ def execute(record):
             nontrivial = True
         writers |= set(BLOCKS[b][0] for b in job['blocks'] if b in BLOCKS and (BLOCKS[b][1] == 'W' or BLOCKS[b][0] == 'envs'))
     res['nontrivial'] = nontrivial
-    res['digest'] = core.hexdigest([[j['src'], j['renderer'], j['split'], j['theme']] for j in jobs])
+    res['digest'] = core.hexdigest([[j['src'], j['renderer'], j['split'], j['theme'], j['extra']] for j in jobs])
     res['log_digest'] = core.hexdigest(log)
     res['states'] = [core.h64(core.hexdigest(sorted(h['drift']))) for h in hist]
     return res
@@ -730,6 +753,8 @@ def simplify(record):
             yield dict(record, ops=ops[:i] + [dict(op, cls='article')] + ops[i + 1:])
         if (op['renderer'], op['split'], op['theme'], op['dt']) != ('HTML5', 2, 'default', 1):
             yield dict(record, ops=ops[:i] + [dict(op, renderer='HTML5', split=2, theme='default', dt=1)] + ops[i + 1:])
+        for k in range(len(op.get('extra', []))):
+            yield dict(record, ops=ops[:i] + [dict(op, extra=op['extra'][:k] + op['extra'][k + 1:])] + ops[i + 1:])
     sw = record['swarm']
     if sw.get('base') != 'minimal' or sw.get('exec_ref'):
         yield dict(record, swarm=dict(sw, base='minimal', exec_ref=False))
